@@ -55,6 +55,10 @@ func Verif_C12_vesting_roundtrip() {
 	W.bank.fund(verifModuleAddr(types.ModuleName), "uc4e", locked)
 	k.AppendVestingAccountTrace(ctx, types.VestingAccountTrace{Address: "c4e:va1", Genesis: verif_bool("g1"), FromGenesisPool: verif_bool("p1"), FromGenesisAccount: verif_bool("a1")})
 	k.AppendVestingAccountTrace(ctx, types.VestingAccountTrace{Address: "c4e:va2", Genesis: verif_bool("g2"), FromGenesisPool: verif_bool("p2"), FromGenesisAccount: verif_bool("a2")})
+	// the counter is the next trace id, not the number of traces: a validation-accepted state may have gaps in the ids
+	// (imported or migrated genesis), so the stored counter is 2 or more
+	traceCount := uint64(2 + 3*verif_choice("traceIdGap", 2))
+	k.SetVestingAccountTraceCount(ctx, traceCount)
 
 	g := ExportGenesis(ctx, k)
 	verif_assert(g.Validate() == nil, "an exported genesis passes validation")
@@ -80,7 +84,7 @@ func Verif_C12_vesting_roundtrip() {
 		verif_assert(err == nil, "vesting types are restored")
 		_ = vt2
 	}
-	verif_assert(k2.GetVestingAccountTraceCount(ctx2) == 2, "trace counter is restored")
+	verif_assert(k2.GetVestingAccountTraceCount(ctx2) == traceCount, "trace counter is restored")
 	for _, addr := range []string{"c4e:va1", "c4e:va2"} {
 		_, f := k2.GetVestingAccountTrace(ctx2, addr)
 		verif_assert(f, "traces are restored")
